@@ -116,7 +116,7 @@ int main()
 #endif
     KIND(16, step_vec) KIND(17, step_cvec) KIND(18, step_ptr) KIND(19, key_map) KIND(20, value_map) KIND(21, cvalue_map)
     KIND(22, toy_bi1) KIND(23, toy_bi2) KIND(24, toy_bi3) KIND(25, toy_ra1) KIND(26, toy_ra2) KIND(27, toy_ra3)
-    KIND(28, toy_ext_int) KIND(29, toy_ext_long)
+    KIND(28, toy_ext_int) KIND(29, toy_ext_long) KIND(40, key_mmap) KIND(41, value_mmap)
 #ifndef C12_LIGHT
     AKIND(30, optarr_it) AKIND(31, optarr_cit) AKIND(32, optarr_rit) AKIND(33, cplxarr_it) AKIND(34, cplxarr_cit) AKIND(35, cplxarr_rit)
     KIND(36, optvec_srit) KIND(37, cplxvec_srit) KIND(38, step_srit) KIND(39, toyra_srit)
